@@ -391,3 +391,14 @@ func compareSnap(c *cat.Catalog, dry bool, idx int, ctx string, w, g *Snap) []Di
 	}
 	return ds
 }
+
+func provStrings(ps []univ.Prov) []string {
+	ss := make([]string, len(ps))
+	for i, p := range ps {
+		ss[i] = p.String()
+	}
+	sort.Strings(ss)
+	return ss
+}
+
+func provBagS(ss []string) string { return strings.Join(ss, " ") }
